@@ -880,6 +880,42 @@ class Gen:
                 else:
                     raise TranslateError('%s: statement %s' % (fn, k))
             runs[fn] = stmts
+        # the 2 x |kinds| public methods of ValuePresolverImpl: `return RunPresolve(&BasicLink::Presolve<K>, mv);`
+        entry = []
+        for k in kinds:
+            for d in ('Presolve', 'Postsolve'):
+                ms = self.methods('mp::pre::ValuePresolverImpl', d + k)
+                if len(ms) != 1:
+                    raise TranslateError('ValuePresolverImpl::%s%s: %d definitions' % (d, k, len(ms)))
+                params = [p_['name'] for p_ in ms[0]['inner'] if p_.get('kind') == 'ParmVarDecl']
+                st = self.body(ms[0]).get('inner', [])
+                if len(st) != 1 or st[0]['kind'] != 'ReturnStmt' or len(params) != 1:
+                    raise TranslateError('ValuePresolverImpl::%s%s: body is not a single return / not one parameter' % (d, k))
+                calls = find(st[0], lambda n: n.get('kind') in ('CXXMemberCallExpr', 'CallExpr'))
+                if len(calls) != 1:
+                    raise TranslateError('ValuePresolverImpl::%s%s: %d calls in the return expression' % (d, k, len(calls)))
+                call = calls[0]
+                callee = call['inner'][0]
+                if callee.get('kind') != 'MemberExpr' or not find(callee, lambda n: n.get('kind') == 'CXXThisExpr'):
+                    raise TranslateError('ValuePresolverImpl::%s%s: callee is not a member of this' % (d, k))
+                args = call['inner'][1:]
+                if len(args) != 2:
+                    raise TranslateError('ValuePresolverImpl::%s%s: %d arguments' % (d, k, len(args)))
+                a0 = args[0]
+                while a0.get('kind') in ('ImplicitCastExpr', 'ParenExpr'):
+                    a0 = a0['inner'][0]
+                if a0.get('kind') != 'UnaryOperator' or a0.get('opcode') != '&' or 'BasicLink::*' not in a0['type']['qualType']:
+                    raise TranslateError('ValuePresolverImpl::%s%s: first argument is not &BasicLink::<method>' % (d, k))
+                ref = a0['inner'][0]
+                if ref.get('kind') != 'DeclRefExpr' or ref['referencedDecl'].get('kind') != 'CXXMethodDecl':
+                    raise TranslateError('ValuePresolverImpl::%s%s: first argument is not a method pointer' % (d, k))
+                a1 = args[1]
+                while a1.get('kind') in ('ImplicitCastExpr', 'ParenExpr'):
+                    a1 = a1['inner'][0]
+                if a1.get('kind') != 'DeclRefExpr' or a1['referencedDecl'].get('name') != params[0]:
+                    raise TranslateError('ValuePresolverImpl::%s%s: second argument is not the parameter' % (d, k))
+                entry.append('(%s, %s, %s)' % (lstr(d + k), lstr(callee['name']), lstr(ref['referencedDecl']['name'])))
+        self.entry_points = entry
         return runs, link_progs, writes, indiv
 
 
@@ -963,13 +999,15 @@ def main(repo, out, work):
         L.append('def %sSkeleton : List String := [%s]' % (fn[0].lower() + fn[1:], ', '.join(lstr(s) for s in skel[fn])))
     runs, link_progs, writes, indiv = g.run_tables
     L.append('/-- the control structure as executable programmes (`RunLang.lean`): `RunPresolve` / `RunPostsolve`, for every method of `CopyLink` /')
-    L.append('    `Many2ManyLink` the programme of the range helper it calls, the written parameter of `Distr` / `Collect`, the loops of `BasicIndivEntryLink` -/')
+    L.append('    `Many2ManyLink` the programme of the range helper it calls, the written parameter of `Distr` / `Collect`, the loops of `BasicIndivEntryLink`,')
+    L.append('    the public `Presolve<K>(mv)` / `Postsolve<K>(mv)` of `ValuePresolverImpl`: (method, run function called, member pointer passed as `fn`) -/')
     L.append('def runTables : RunTables where')
     L.append('  runPre := [%s]' % ', '.join(runs['RunPresolve']))
     L.append('  runPost := [%s]' % ', '.join(runs['RunPostsolve']))
     L.append('  linkProgs := [%s]' % ',\n    '.join(link_progs))
     L.append('  writes := %s' % writes)
     L.append('  indivLoops := [%s]' % ',\n    '.join(indiv))
+    L.append('  entryPoints := [%s]' % ',\n    '.join(g.entry_points))
     L += ['', 'end MpVerif.Gen.ValCvt', '']
     text = '\n'.join(L)
     if not os.path.exists(out) or open(out).read() != text:
